@@ -19,10 +19,12 @@ Enumerated cases (each: build the chart on the real library, then run the oracle
      type, and every shape (thorough: pairs) applied to each corpus chart of the three chart decks; for
      these the deck is also SAVED and the workbook is taken from the saved package through an independent
      OPC reader (chart part -> package relationship -> embedded part) and must be the replaced blob;
-  R  ONE chart-data object used twice with a mutation in between: add_chart(cd); then cd.add_category(..)
-     (+ a point per series) | series.add_data_point(..) | cd.add_series(..) through the documented chart-data
-     API; then chart.replace_data(cd) or a second add_chart(cd) — category, XY and bubble data, one chart type
-     per writer family; the oracle runs after EACH use (a workbook frozen at first use is caught here);
+  R  ONE chart-data object used twice with growth in between (c07_shapes.reuse_pairs / apply_delta, documented
+     chart-data API only): add_chart(cd); then add_category (flat; a new multi-level top category) |
+     add_sub_category | add_series | add_data_point on a short series; XY/bubble: EVERY series position
+     (first, middle, last) of 2- and 3-series data grown by two points, or a series added; then
+     chart.replace_data(cd) or a second add_chart(cd); one chart type per writer family; the oracle runs after
+     EACH use (anything cached at the first use — workbook blob, row offsets — is caught here);
   H  a chart whose part says c:date1904=1 (generated deck patched with the harness's own zip writer and
      re-opened), then replace_data with date categories (2016 dates, representable in both date systems).
 
@@ -324,36 +326,7 @@ def exec_case(case, emit, part=None, slides=None):
 
 # ---- family R: one chart-data object used twice with a mutation in between ---------------------------------------
 
-REUSE_MUTS = {"cat": ["add_category", "add_data_point", "add_series"],
-              "xy": ["add_data_point", "add_series"], "bubble": ["add_data_point", "add_series"]}
 REUSE_SECOND = ["replace_data", "add_chart"]
-
-
-def _reuse_base(kind):
-    if kind == "cat":
-        return {"k": "cat", "lab": "str", "n": 3, "ns": 2, "vk": "int"}
-    return {"k": kind, "lens": [2, 3], "vk": "int"}
-
-
-def _reuse_mutate(cd, kind, mut):
-    """Mutate the live chart-data object through its documented API."""
-    if kind == "cat":
-        if mut == "add_category":
-            cd.add_category("Added later")
-            for ser in cd:
-                ser.add_data_point(77.5)
-        elif mut == "add_data_point":
-            cd[len(cd) - 1].add_data_point(88.25)
-        else:
-            cd.add_series("Added series", [5, 6.5, 7])
-        return
-    pt = (9.5, 8.5) if kind == "xy" else (9.5, 8.5, 3.25)
-    if mut == "add_data_point":
-        cd[0].add_data_point(*pt)
-    else:
-        ser = cd.add_series("Added series")
-        ser.add_data_point(*pt)
-        ser.add_data_point(*[v + 1 for v in pt])
 
 
 def _check_chart(chart, kind, label_kind):
@@ -374,11 +347,11 @@ def exec_reuse(case, emit, part=None):
     from pptx.enum.chart import XL_CHART_TYPE
     tname, mut, second = case["type"], case["mut"], case["second"]
     kind = S.kind_of(tname)
-    lk = "str" if kind == "cat" else None
+    lk = S.label_kind(case["after"]) if kind == "cat" else None
     info = {"raised": False, "pts": 0, "uses": 0}
     prs = Presentation()
     slide = prs.slides.add_slide(prs.slide_layouts[6])
-    base = _reuse_base(kind)
+    base = case["before"]
     cd = S.build(base)
     head = "%s: cd = %s" % (tname, c07._spec_brief(base))
     try:
@@ -388,13 +361,14 @@ def exec_reuse(case, emit, part=None):
         info["pts"] += stats["pts"]
         for tail, what in viols:
             emit("C08|" + tail, "%s; add_chart(cd): %s" % (head, what))
-        _reuse_mutate(cd, kind, mut)
+        S.apply_delta(cd, base, case["after"])
+        grown = "cd grown by %s to %s" % (mut, c07._spec_brief(case["after"]))
         if second == "replace_data":
             chart.replace_data(cd)
-            step = "add_chart(cd); cd.%s(...); chart.replace_data(cd)" % mut
+            step = "add_chart(cd); %s; chart.replace_data(cd)" % grown
         else:
             chart = slide.shapes.add_chart(getattr(XL_CHART_TYPE, tname), 0, 0, 3000000, 2000000, cd).chart
-            step = "add_chart(cd); cd.%s(...); second add_chart(cd)" % mut
+            step = "add_chart(cd); %s; second add_chart(cd)" % grown
     except Exception as e:  # noqa: BLE001  -- raising operations are C07's business
         info["raised"] = True
         if part is not None:
@@ -591,10 +565,11 @@ def build_cases(thorough, types, corpus):
     expected_h = 2 * len(cat_fam_types)
     # R
     for t in fam_types.values():
-        for mut in REUSE_MUTS[S.kind_of(t)]:
+        for mut, before, after in S.reuse_pairs(S.kind_of(t)):
             for second in REUSE_SECOND:
-                add("R", {"src": "reuse", "type": t, "mut": mut, "second": second})
-    expected_r = 2 * (3 * len(cat_fam_types) + 2 * (len(fam_types) - len(cat_fam_types)))
+                add("R", {"src": "reuse", "type": t, "mut": mut, "before": before, "after": after, "second": second})
+    expected_r = 2 * (len(S.reuse_pairs("cat")) * len(cat_fam_types)
+                      + len(S.reuse_pairs("xy")) * (len(fam_types) - len(cat_fam_types)))
     expected = {"R": expected_r, "A": expected_a, "B": expected_b, "D": expected_d, "E": expected_e, "F": expected_f, "G": expected_g, "H": expected_h}
     if sizes != expected:
         raise HarnessError("case generator sizes %r != closed forms %r" % (sizes, expected))
